@@ -180,11 +180,31 @@ def inplace_step_probe(ctx):
                 ctx.fail("oracle", "mcquad:mhcustom:%s-step" % style, {"nsamples": ns, "nburnout": nb, "step": "x <- -0.9 x + 0.3, " + style}, v, want)
 
 
+def aliased_params_probe(ctx):
+    """one tensor passed in two slots of fparams: the gradient is the mean of the TOTAL derivative of f on the samples (finding F38:
+    the backward differentiates by tensor identity and returns twice the gradient)"""
+    from xitorch.integrate import mcquad
+    a = torch.tensor(0.7, dtype=DT, requires_grad=True)
+    step = lambda x, *p: x * -0.9 + 0.3
+    v = mcquad(lambda x, p, q: (p * x * x + q * x).sum(), lambda x: -(x * x).sum(), torch.tensor([0.4], dtype=DT), fparams=(a, a),
+               method="mhcustom", custom_step=step, nsamples=5, nburnout=1)
+    g, = torch.autograd.grad(v, a)
+    xs = [torch.tensor([0.4], dtype=DT)]
+    for _ in range(4):
+        xs.append(step(xs[-1]))
+    want = float(sum((t * t + t).sum() for t in xs)) / 5
+    ctx.count(("mcquad-aliased-params",), nontrivial=True)
+    if not abs(float(g) - want) <= 1e-10:
+        ctx.fail("oracle", "mcquad:aliased-explicit-params", {"call": "mcquad(lambda x, p, q: p*x*x + q*x, logp, x0, fparams=(a, a), deterministic sampler)"},
+                 float(g), want)
+
+
 def oracle(ctx):
     import xitorch as xt
     from xitorch.integrate import mcquad
     rng = ctx.rng
     inplace_step_probe(ctx)
+    aliased_params_probe(ctx)
     step = lambda x, *p: x * -0.9 + 0.3
     for rep in range(ctx.n(4, 20)):
         ns, nb = rng.randrange(2, 9), rng.randrange(1, 5)
